@@ -173,10 +173,12 @@ def confirm_neutral(name: str, src: str) -> int:
         shutil.rmtree(tmp, ignore_errors=True)
 
 
-def rerun() -> int:
+def rerun(only=()) -> int:
     root = os.path.join(VERIF, "seeded")
     bad = 0
     for name in sorted(os.listdir(root)) if os.path.isdir(root) else []:
+        if only and not any(name.startswith(o) for o in only):
+            continue
         d = os.path.join(root, name)
         patch = os.path.join(d, "patch.diff")
         if not os.path.isfile(patch):
@@ -254,6 +256,6 @@ if __name__ == "__main__":
     if len(sys.argv) >= 4 and sys.argv[1] == "confirm-neutral":
         sys.exit(confirm_neutral(sys.argv[2], sys.argv[3]))
     if len(sys.argv) >= 2 and sys.argv[1] == "rerun":
-        sys.exit(rerun())
+        sys.exit(rerun(tuple(sys.argv[2:])))
     print(__doc__)
     sys.exit(2)
